@@ -216,6 +216,11 @@ fn parse_table(v: &OV) -> J {
 
 /// one execution; returns the number of decisions (error()/merge() calls) the error type was asked
 fn run_once(r: &J, ty: u32, payload: &OV, src: &str, etype: &str, script: &[bool], dflt: bool, head: &str, isref: bool, perm: bool, out: &mut Out) -> u32 {
+    run_once_x(r, ty, payload, src, etype, script, dflt, head, isref, perm, false, out)
+}
+
+#[allow(clippy::too_many_arguments)]
+fn run_once_x(r: &J, ty: u32, payload: &OV, src: &str, etype: &str, script: &[bool], dflt: bool, head: &str, isref: bool, perm: bool, extra: bool, out: &mut Out) -> u32 {
     let pres = presented(payload, src);
     rt::reset_ctx(script, dflt, isref);
     rt::set_deep(r["deep"].as_bool().unwrap_or(false));
@@ -228,7 +233,9 @@ fn run_once(r: &J, ty: u32, payload: &OV, src: &str, etype: &str, script: &[bool
     let mut inp = r.clone();
     if let Some(o) = inp.as_object_mut() {
         o.remove("perms");
+        o.remove("extras");
         o.insert("perm".into(), json!(perm));
+        o.insert("extra".into(), json!(extra));
         o.insert("val".into(), if r["deep"].as_bool().unwrap_or(false) { rec("null") } else { enc_ov(payload) });
         o.insert("src".into(), json!(src));
         o.insert("etype".into(), json!(etype));
@@ -318,6 +325,13 @@ pub fn run_record(r: &J, out: &mut Out, rng: &mut crate::util::Rng) {
         for p in ps {
             let pp = rt::ov_from_rec(p);
             run_once(r, ty, &pp, "ov", "rec", &[], true, "run", false, true, out);
+        }
+    }
+    // the same payload with extra, unknown members added to objects that feed structs without deny_unknown_fields
+    if let Some(ps) = r["extras"].as_array() {
+        for p in ps {
+            let pp = rt::ov_from_rec(p);
+            run_once_x(r, ty, &pp, src, "rec", &[], true, "run", false, false, true, out);
         }
     }
 }
